@@ -419,3 +419,44 @@ Theorem C06_round2_translated_source :
   gen_source_upgrades_then_aligns = true /\ gen_npy_get_chunk_stateless = true /\ gen_fallback_only_on_not_found = true.
 Proof. repeat split; reflexivity. Qed.
 Print Assumptions C06_round2_translated_source.
+
+(* ================================================================================================================ *)
+(* Round 2b: lost data under the processing options that sit between the chunk store and the user (they act on the
+   zero-filled arrays): van_vleck='autocorr' and the division of the weights by the autocorrelation power.
+   Numeric kernels: C15's Model/Weights.v. *)
+From Coq Require Import QArith Qcanon.
+From KV Require Import Model.Interp Model.Weights Model.LostOpt Proofs.WeightsP Proofs.LostOptP.
+Close Scope Q_scope.
+
+(* "visibilities are zero exactly on the elements covered by their own missing chunks" survives van_vleck='autocorr':
+   for every strictly increasing lookup table that starts with the anchor found in the source (gen_vv_anchor, (0, 0)) the
+   zero fill of a lost chunk stays exactly 0 (autocorrelations through np.interp, cross-correlations untouched). *)
+Theorem C06_lost_vis_zero_under_van_vleck : forall vv is_auto t x,
+  vv = None \/ (vv = Some (vv_anchor :: t) /\ strictly_inc (vv_anchor :: t)) ->
+  opt_vis_re vv is_auto (delivered true x) = Fin 0.
+Proof. exact opt_vis_lost. Qed.
+Print Assumptions C06_lost_vis_zero_under_van_vleck.
+(* ... and the anchor is what makes it so: a strictly increasing table without it sends 0 to its first true-power entry *)
+Theorem C06_van_vleck_without_anchor_refuted : exists table, strictly_inc table /\ vv_interp table (Fin 0) <> Fin 0.
+Proof. exact vv_without_anchor_refuted. Qed.
+Print Assumptions C06_van_vleck_without_anchor_refuted.
+
+(* weights under stored_weights_are_scaled True / False, any autocorrelation powers (lost, zero, infinite, NaN): a lost
+   weights or weights_channel chunk gives EXACTLY zero; a lost autocorrelation visibility under power scaling gives the
+   documented substitute bad_weight * stored weight (never a large weight); everything else is computed from the same
+   inputs as without the loss.  weight_class is the decision table the correspondence uses. *)
+Theorem C06_lost_weights_under_options : forall divided l1 l2 wl a1 a2 sw,
+  opt_weight divided (delivered l1 a1) (delivered l2 a2) (delivered wl sw) =
+  match weight_class divided l1 l2 wl with
+  | 0 => Fin 0
+  | 1 => emul (Fin bad_weight) sw
+  | _ => opt_weight divided a1 a2 sw
+  end.
+Proof. exact weight_class_correct. Qed.
+Print Assumptions C06_lost_weights_under_options.
+Example C06_options_examples :
+  weight_class true true false false = 1 /\ weight_class true false false false = 2 /\
+  weight_class true true true true = 0 /\ weight_class false true true false = 2 /\ vis_class true = 0 /\
+  opt_weight true (Fin 0) (Fin (Q2Qc 3)) (Fin (Q2Qc 5)) = Fin (bad_weight * Q2Qc 5)%Qc /\
+  gen_weights_divided true false = true /\ gen_weights_divided true true = false /\ gen_weights_divided false true = false.
+Proof. exact ex_weight_classes. Qed.
